@@ -2,6 +2,8 @@ import KmipGen.CodecSrc
 import KmipModel.ExpectCodec
 import KmipModel.ExpectSkel
 import KmipGen.Skeleton
+import KmipGen.Dataflow
+import KmipModel.ExpectFlow
 /-
   C08, generated obligations: the operation skeletons of the server functions the session model mirrors, regenerated
   from /repo's server.go on every run, equal the reviewed expectations.
@@ -24,5 +26,8 @@ namespace Kmip
 
 /-- protocol errors (errors.go) -/
 theorem GenC08_codec_src_err : KmipGen.codecSrc_err = ExpectCodec.codecSrc_err := by decide
+
+theorem GenC08_handleBatch_dataflow : KmipGen.flow_Server_handleBatch = ExpectFlow.flow_Server_handleBatch := by decide +kernel
+theorem GenC08_handleWrapped_dataflow : KmipGen.flow_Server_handleWrapped = ExpectFlow.flow_Server_handleWrapped := by decide +kernel
 
 end Kmip
